@@ -483,3 +483,239 @@ func streamCallFailsAsInjected(t *testing.T, st *Stats) {
 		}
 	}
 }
+
+// reportedSuccessIsReal (C01, C03): an operation that reports success has taken effect — also when its
+// COMMIT fails, or when the request's context ends between its last statement and its COMMIT. The target
+// is run with every statement (the COMMIT included) failing / cancelled in turn; whenever it reports
+// success the tables must be what the fault-free run leaves.
+func reportedSuccessIsReal(prop string, prefix []Op, target Op, effect string) func(t *testing.T, st *Stats) {
+	return func(t *testing.T, st *Stats) {
+		clean := runFaulted(t, Seed(), prefix, target, "", 0, false)
+		if clean.err != nil {
+			st.Count("success_is_real_setup_failed", 1)
+			return
+		}
+		for _, mode := range []string{"fail", "cancel", "cancel-before-commit"} {
+			for k := 1; k <= clean.stmts; k++ {
+				if mode == "cancel-before-commit" && k > 1 {
+					break
+				}
+				fr := runFaulted(t, Seed(), prefix, target, mode, k, false)
+				st.Count("success_is_real_runs", 1)
+				if fr.txOpen || fr.err != nil {
+					continue
+				}
+				if fr.lost == "" && fr.canon == clean.canon {
+					continue
+				}
+				st.Count("success_is_real_reported_success", 1)
+				what := fmt.Sprintf("%s with statement %d of %d %s (%s): the operation reported success, but %s (tables differ from the fault-free run%s)", target.K, k, clean.stmts,
+					map[string]string{"fail": "failing", "cancel": "issued under a cancelled context", "cancel-before-commit": "— the request's context ended between the last statement and COMMIT"}[mode], mode, effect,
+					map[bool]string{true: "; " + fr.lost, false: ""}[fr.lost != ""])
+				p := writeReplay(fmt.Sprintf("%s-success-not-real-%d.json", prop, Seed()), replayFile{Property: prop, Sig: "success-not-real", Seed: Seed(), Ops: append(append([]Op{}, prefix...), target),
+					What: what, Note: fmt.Sprintf("target operation %s, %s at statement %d", target.K, mode, k)})
+				st.Violate(Violation{What: "[success-not-real] " + what, Replay: p, FoundInput: true, Sig: "success-not-real"})
+				return
+			}
+		}
+	}
+}
+
+// orderedPush (C05): ordering on the push path. An ordered push subscription; K1 and K2 carry one
+// ordering key, an un-keyed message lies between them. The endpoint does not accept the first push of
+// K1 (the connection breaks / it answers 500 / its answer is slow): K2 is not pushed before a push of
+// K1 has been accepted.
+func orderedPush(t *testing.T, st *Stats) {
+	for _, how := range []string{"transport-error", "500", "slow-500"} {
+		what := ""
+		var seq []string
+		synctest.Test(t, func(t *testing.T) {
+			w := NewWorld(t, Seed())
+			defer w.Close()
+			w.Exec(Op{K: "create_topic", Topic: "t"})
+			w.Exec(Op{K: "create_sub", Sub: "push", Cfg: &SubCfg{Topic: "t", Ordered: true, TTL: 24 * 3600 * Sec, MTTL: 3600 * Sec, MinB: Sec, MaxB: 2 * Sec, Push: "http://push.test/x"}})
+			sub, err := w.Client.Subscription.Query().Only(qctx)
+			if err != nil {
+				what = "setup: " + err.Error()
+				return
+			}
+			rt := &scriptedRT{reqs: make(chan *pushReq)}
+			ctx, cancel := context.WithCancel(context.Background())
+			defer cancel()
+			pusher := actions.NewHttpPusher(sub.Name, sub.ID, "http://push.test/x", &http.Client{Transport: rt}, w.Client)
+			done := make(chan error, 1)
+			go func() { done <- pusher.Go(ctx) }()
+			synctest.Wait()
+			w2 := *w
+			for i, key := range []string{"k", "", "k"} {
+				w2.execInner(Op{K: "publish", Topic: "t", Msgs: []MsgSpec{{N: i, Key: key}}}, &Result{T: w.Now()})
+				time.Sleep(time.Millisecond)
+			}
+			name := map[string]string{}
+			for _, m := range w.Client.Message.Query().AllX(qctx) {
+				var p struct{ N int }
+				_ = json.Unmarshal(m.Payload, &p)
+				name[m.ID.String()] = []string{"K1", "nokey", "K2"}[p.N%3]
+			}
+			k1Accepted, k1Refused := false, false
+			for tries := 0; tries < 80 && what == ""; tries++ {
+				synctest.Wait()
+				var r *pushReq
+				select {
+				case r = <-rt.reqs:
+				default:
+				}
+				if r == nil {
+					time.Sleep(500 * time.Millisecond)
+					continue
+				}
+				n := name[r.body.Message.MessageID]
+				switch {
+				case n == "K1" && !k1Refused:
+					k1Refused = true
+					seq = append(seq, "K1:"+how)
+					switch how {
+					case "transport-error":
+						r.respond <- pushResp{code: -1}
+					case "500":
+						r.respond <- pushResp{code: 500}
+					default:
+						r.respond <- pushResp{code: 500, delay: 1500 * time.Millisecond}
+					}
+				case n == "K2" && !k1Accepted:
+					seq = append(seq, "K2:pushed")
+					r.respond <- pushResp{code: 204}
+					what = fmt.Sprintf("ordered push subscription; K1 and K2 have one ordering key; the only push of K1 so far was not accepted (%s); K2 is pushed nevertheless — sequence of pushes: %v", how, seq)
+				default:
+					if n == "K1" {
+						k1Accepted = true
+					}
+					seq = append(seq, n+":204")
+					r.respond <- pushResp{code: 204}
+				}
+			}
+			if what == "" && !(k1Refused && k1Accepted) {
+				what = fmt.Sprintf("setup: K1 refused=%v accepted=%v within 40 s, pushes %v", k1Refused, k1Accepted, seq)
+			}
+			cancel()
+			synctest.Wait()
+		})
+		st.Count("ordered_push_cases", 1)
+		if strings.HasPrefix(what, "setup:") {
+			st.Count("ordered_push_setup_failed", 1)
+			continue
+		}
+		if what != "" {
+			p := writeScenario("C05", "push-overtake", what, []string{"ordered push subscription (backoff 1-2 s)", "publish K1 (key k), an un-keyed message, K2 (key k)",
+				"the first push of K1: " + how + "; every other push: 204", "K2 is pushed only after a push of K1 was answered 204"})
+			st.Violate(Violation{What: "[push-overtake] " + what, Replay: p, FoundInput: true, Sig: "push-overtake"})
+			return
+		}
+	}
+}
+
+// notifierOnSQLite (C10): the registered pg-notifier service, started the way the server starts it on a
+// database that is not PostgreSQL, has nothing to relay — and must leave the in-process wake-ups alone:
+// a Pull waiting on an empty subscription returns the message published a moment later at once.
+func notifierOnSQLite(t *testing.T, st *Stats) {
+	what := ""
+	synctest.Test(t, func(t *testing.T) {
+		w := NewWorld(t, Seed())
+		defer w.Close()
+		w.Exec(Op{K: "create_topic", Topic: "t"})
+		w.Exec(Op{K: "create_sub", Sub: "s", Cfg: &SubCfg{Topic: "t", TTL: 24 * 3600 * Sec, MTTL: 3600 * Sec}})
+		svc := services.NewPgNotifierServiceForVerif()
+		sctx, scancel := context.WithCancel(context.Background())
+		defer scancel()
+		if err := svc.Initialize(sctx, w.Client); err != nil {
+			what = "setup: Initialize: " + err.Error()
+			return
+		}
+		ready := make(chan struct{})
+		sdone := make(chan error, 1)
+		go func() { sdone <- svc.Start(sctx, ready) }()
+		<-ready
+		synctest.Wait()
+		type pulled struct {
+			n   int
+			err error
+			at  time.Time
+		}
+		for round := 1; round <= 2 && what == ""; round++ {
+			res := make(chan pulled, 1)
+			pctx, pcancel := context.WithCancel(WithLabel(context.Background(), "waiter"))
+			go func() {
+				r, err := w.Api().Sub.Pull(pctx, &pubsubpb.PullRequest{Subscription: SubName("s"), MaxMessages: 5})
+				n := 0
+				if r != nil {
+					n = len(r.ReceivedMessages)
+				}
+				res <- pulled{n, err, time.Now()}
+			}()
+			synctest.Wait()
+			time.Sleep(300 * time.Millisecond)
+			synctest.Wait()
+			select {
+			case p := <-res:
+				what = fmt.Sprintf("setup: the Pull on the empty subscription returned before anything was published (%d messages, %v)", p.n, p.err)
+				pcancel()
+				continue
+			default:
+			}
+			t0 := time.Now()
+			w2 := *w
+			w2.execInner(Op{K: "publish", Topic: "t", Msgs: []MsgSpec{{N: round}}}, &Result{T: w.Now()})
+			synctest.Wait()
+			time.Sleep(100 * time.Millisecond)
+			synctest.Wait()
+			select {
+			case p := <-res:
+				if p.err != nil || p.n != 1 {
+					what = fmt.Sprintf("round %d: the waiting Pull returned %d messages, err=%v", round, p.n, p.err)
+				} else if p.at.Sub(t0) > 50*time.Millisecond {
+					what = fmt.Sprintf("round %d: the waiting Pull returned the message %v after the publish committed", round, p.at.Sub(t0))
+				}
+			default:
+				what = fmt.Sprintf("the pg-notifier service was started (Initialize, Start) on a database that is not PostgreSQL; round %d: a Pull waits on the empty subscription, a message is published and committed; 100 ms later the Pull is still waiting: its wake-up was lost", round)
+			}
+			pcancel()
+			synctest.Wait()
+			// acknowledge what was delivered so that the next round starts empty
+			for _, d := range w.Client.Delivery.Query().Where(delivery.CompletedAtIsNil()).AllX(qctx) {
+				w.Client.Delivery.UpdateOne(d).SetCompletedAt(time.Now()).ExecX(qctx)
+			}
+		}
+		scancel()
+		synctest.Wait()
+	})
+	st.Count("notifier_service_cases", 1)
+	if strings.HasPrefix(what, "setup:") {
+		st.Count("notifier_service_setup_failed", 1)
+		return
+	}
+	if what != "" {
+		p := writeScenario("C10", "wake-lost-notifier-service", what, []string{"pg-notifier service: Initialize, Start on SQLite", "Pull(s) waits on the empty subscription", "Publish(t) commits", "the Pull returns the message at once"})
+		st.Violate(Violation{What: "[wake-lost-notifier-service] " + what, Replay: p, FoundInput: true, Sig: "wake-lost-notifier-service"})
+	}
+}
+
+// waitingStreamUnsetLimits (C10): a StreamingPull whose initial request leaves one of the two limits
+// unset (0 = the documented default) waits on an empty subscription; a message published then is sent
+// on it promptly.
+func waitingStreamUnsetLimits(t *testing.T, st *Stats) {
+	for _, lim := range [][2]int{{10, 0}, {0, 10000}, {0, 0}} {
+		cs := c11Case{Name: fmt.Sprintf("waiting-stream-limits-%d-%d", lim[0], lim[1]), Grpc: true,
+			Actions: []c11Action{{K: "fc", Msgs: lim[0], Byts: lim[1]}, {K: "advance", D: 500 * Ms}, {K: "publish", Pads: []int{0}}, {K: "advance", D: 500 * Ms},
+				{K: "ack", Pick: []int{0}}, {K: "advance", D: 500 * Ms}, {K: "publish", Pads: []int{0}}, {K: "advance", D: 500 * Ms}}}
+		r := c11Run(t, Seed(), cs, map[string]bool{"stall-head-of-line": true})
+		st.Count("waiting_stream_unset_limit_cases", 1)
+		if r.sentTotal < 2 {
+			p := ReplayPath(fmt.Sprintf("C10-%s-%d.json", cs.Name, Seed()))
+			what := fmt.Sprintf("a StreamingPull opened with max_outstanding_messages=%d, max_outstanding_bytes=%d (0 = unset) waits on an empty subscription; a message is published, acknowledged when it arrives, then a second one is published; 500 ms after the second publish %d of the 2 messages have been sent on the stream: the waiting fetch was not woken (%s)", lim[0], lim[1], r.sentTotal, r.violation)
+			b, _ := json.MarshalIndent(c11Replay{Property: "C10", Sig: "waiting-stream-not-woken", Seed: Seed(), Case: cs, What: what}, "", " ")
+			os.WriteFile(p, b, 0o644)
+			st.Violate(Violation{What: "[waiting-stream-not-woken] " + what, Replay: p, FoundInput: true, Sig: "waiting-stream-not-woken"})
+			return
+		}
+	}
+}
